@@ -57,5 +57,5 @@ def replay(ctx, cx, h=None):
     if not steps: return False, 'no output: ' + raw
     r = steps[-1]
     if t == '1': bad = not (len(r['sent']) == 1 and r['sent'][0]['type'] == '0' and r['sent'][0].get('112') == 'QZ')
-    else: bad = bool(r['sent']) or (st == 9 and r['state'] != 1) or (st != 9 and r['state'] != st)
+    else: bad = bool(r['sent']) or (st == 9 and r['state'] != 1) or (st not in (9, 12) and r['state'] != st) or (st == 12 and r['state'] not in (12, 1))
     return bad, 'native: ' + raw[-300:]
